@@ -35,6 +35,9 @@ pub enum Dg {
     /// a short body over C01's 12-symbol alphabet behind a header whose id octets, read as label lengths, span the
     /// datagram up to its last octet (0: as a query, 1: as a response)
     Spanning(Vec<u8>, bool),
+    /// placeholder, replaced before use by a StoreQuery for <a name-like string of the sources> . <suffix of a name the
+    /// store's history mentions> (choice of string, of name, of the number of leading labels dropped, QTYPE)
+    DictQuery(u16, u16, u8, u16),
     /// a pointer graph of C01 (chains, self / forward / absolute pointers, pointers into fixed fields, stray tail octets)
     Graph(super::c01::Graph),
 }
@@ -82,6 +85,7 @@ pub fn render_dg(d: &Dg) -> Vec<u8> {
             m.extend_from_slice(body);
             m
         }
+        Dg::DictQuery(..) => vec![],
         Dg::Graph(g) => {
             let mut m = super::c01::render_graph(g);
             m.truncate(8900);
@@ -109,6 +113,7 @@ fn dg_strategy() -> BoxedStrategy<Dg> {
         4 => vec((gen::label(), gen::ardata()), 1..5).prop_map(Dg::ServiceResponse),
         1 => (any::<u16>(), gen::u8b()).prop_map(|(n, f)| Dg::Big(n, f)),
         2 => (vec(proptest::sample::select(vec![0u8, 1, 2, 3, 12, 13, 0x3f, 0x40, 0x80, 0xc0, 0xff, b'a']), 2..=5), any::<bool>()).prop_map(|(b, r)| Dg::Spanning(b, r)),
+        2 => (any::<u16>(), any::<u16>(), 0u8..3, proptest::sample::select(vec![255u16, 12, 33, 1])).prop_map(|(a, b, c, d)| Dg::DictQuery(a, b, c, d)),
         2 => super::c01::graph_strategy(Tier::Quick).prop_map(|mut g| { g.repeat_last = g.repeat_last.min(300); Dg::Graph(g) }),
         4 => vec((super::c13::coll_record(), proptest::sample::select(vec![255u16, 1, 33, 16]), any::<bool>()), 1..3)
             .prop_map(|v| Dg::StoreQuery(v.into_iter().map(|(r, qtype, unicast)| AQuestion { name: r.name, qtype, qclass: 255, unicast }).collect())),
@@ -153,6 +158,18 @@ fn strategy(_t: Tier) -> BoxedStrategy<In> {
                             k += 1;
                         }
                     }
+                }
+            }
+            // queries built from the name-like strings of the sources (service prefixes a responder may treat specially)
+            let dn = gen::dict_names();
+            for d in dgs.iter_mut() {
+                if let Dg::DictQuery(a, b, drop, qtype) = d {
+                    let base = if mentioned.is_empty() { AName::from_strs(&["local"]) } else { mentioned[gen::pick(*b, mentioned.len())].clone() };
+                    let skip = (*drop as usize).min(base.0.len().saturating_sub(1));
+                    let mut labels = dn[gen::pick(*a, dn.len())].0.clone();
+                    labels.extend(base.0[skip..].iter().cloned());
+                    let name = AName(labels);
+                    *d = if name.is_valid() { Dg::StoreQuery(vec![AQuestion { name, qtype: *qtype, qclass: 255, unicast: false }]) } else { Dg::Empty };
                 }
             }
             (ops, dgs, ch)
